@@ -33,6 +33,8 @@ def opsBox (op : String) (ins outs : List String) : Option String :=
   | "vis_subset" => box2Eq (fun x y => showBool (Box.subset x y)) ins outs
   | "vis_strict_subset" => box2Eq (fun x y => showBool (Box.strictSubset x y)) ins outs
   | "vis_interior_subset" => box2Eq (fun x y => showBool (Box.interiorSubset x y)) ins outs
+  | "vis_strict_interior_subset" => box2Eq (fun x y => showBool (Box.strictInteriorSubset x y)) ins outs
+  | "vis_relative_interior_subset" => box2Eq (fun x y => showBool (Box.relInteriorSubset x y)) ins outs
   | "vintersects" => box2Eq (fun x y => showBool (Box.intersects x y)) ins outs
   | "voverlaps" => box2Eq (fun x y => showBool (Box.overlaps x y)) ins outs
   | "vis_disjoint" => box2Eq (fun x y => showBool (Box.isDisjoint x y)) ins outs
